@@ -155,7 +155,128 @@ def build(uni):
         "(shape, rule) items in metadata order; self.extend(list) is logged "
         "in a ghost list; append_integer_reference / append_array_reference "
         "(PSyIR side of the call list) are not modelled")
-    return cs
+    return cs + build_mesh(uni)
+
+
+def build_mesh(uni):
+    """LFRicMeshProperties.kern_args (shared by the call list and the stub
+    list): per adjacent_face property it passes the adjacency array and,
+    before it, the number of horizontal faces nfaces_re_h exactly when the
+    reference-element arguments (rule 5) do not already pass it, i.e. when
+    neither normals_to_horizontal_faces nor
+    outward_normals_to_horizontal_faces is requested (rule 6.1)."""
+    DYN = "dynamo0p3.py"
+    from pyvc.values import VTerm, VTuple, EnumDesc
+    AL0 = z3.Const("H0_$alloc", z3.ArraySort(Ref, BOOL))
+    uni.enums["MeshProperty"] = EnumDesc(
+        "MeshProperty", ["ADJACENT_FACE", "NCELL_2D", "NCELL_2D_NO_HALOS"])
+    uni.fields.update({"_properties": "list[enum:MeshProperty]",
+                       "_kernel": "KernelOf", "$re_props": "list[int]",
+                       "_symbol_table": "TableOf"})
+    RE = ["NORMALS_TO_HORIZONTAL_FACES", "NORMALS_TO_VERTICAL_FACES",
+          "NORMALS_TO_FACES", "OUTWARD_NORMALS_TO_HORIZONTAL_FACES",
+          "OUTWARD_NORMALS_TO_VERTICAL_FACES", "OUTWARD_NORMALS_TO_FACES"]
+    prev_class_attr = getattr(uni, "class_attr", None)
+
+    def class_attr(it, cname, attr, st, fr):
+        if (cname, attr) == ("RefElementMetaData", "Property"):
+            return VTerm("ns", ["RefElementMetaData", "Property"])
+        return prev_class_attr(it, cname, attr, st, fr) \
+            if prev_class_attr else None
+    uni.class_attr = class_attr
+
+    def term_attr(it, obj, attr, st, fr):
+        path = list(obj.args) + [attr]
+        if path[:2] == ["RefElementMetaData", "Property"] and attr in RE:
+            return VInt(z3.IntVal(RE.index(attr) + 1))
+        return VTerm("ns", path)
+    uni.term_attr = term_attr
+
+    def sym(tag):
+        return lambda it, s, a, k, st, fr: VRef(
+            z3.Const("symbol_" + tag, Ref), "NamedSym")
+
+    def field_hook(attr):
+        def h(it, selfv, args, kw, st, fr):
+            return it.getattr(VRef(selfv.e, "Obj"), attr, st, fr)
+        return h
+
+    def construct_hook(it, cname, args, kw, st, fr):
+        if cname == "Signature":
+            return VRef(z3.Const("a_signature", Ref), "Signature")
+        return None
+    uni.construct_hook = construct_hook
+    uni.axioms.append(z3.Const("a_signature", Ref) != NULLC)
+    for t in ("nfaces", "tag", "arr"):
+        uni.axioms.append(z3.Const("symbol_" + t, Ref) != NULLC)
+    uni.prop_hooks.update({
+        "KernelOf.reference_element":
+            lambda it, s, a, k, st, fr: VRef(s.e, "REOf"),
+        "REOf.properties": field_hook("$re_props"),
+        "KernelOf.name": lambda it, s, a, k, st, fr: VStr(fresh("kn", STR)),
+        "NamedSym.name": lambda it, s, a, k, st, fr: VStr(
+            fresh("symname", STR)),
+    })
+    uni.method_hooks.update({
+        "KernelOf.is_coloured": lambda it, s, a, k, st, fr: VBool(
+            fresh("coloured", BOOL)),
+        "TableOf.find_or_create_integer_symbol": sym("nfaces"),
+        "TableOf.find_or_create_tag": sym("tag"),
+        "KernCallArgList.append_integer_reference": sym("nfaces"),
+        "KernCallArgList.append_array_reference": sym("arr"),
+        "KernCallArgList.cell_ref_name": lambda it, s, a, k, st, fr: VTuple(
+            [VStr(fresh("cell", STR)), VStr(fresh("cell_ref", STR))]),
+        "VariablesAccessInfo.add_access": lambda it, s, a, k, st, fr: NONE,
+    })
+    uni.consts.update({
+        "REPROPS": VFunc("hook", fn=lambda it, a, k, st, fr: it.getattr(
+            VRef(st.read("_kernel", a[0].e, "ref"), "Obj"), "$re_props", st,
+            fr)),
+        "PROPS": VFunc("hook", fn=lambda it, a, k, st, fr: it.getattr(
+            VRef(a[0].e, "Obj"), "_properties", st, fr)),
+    })
+    uni.preds.update({
+        "HORIZ": (["m"], "1 in REPROPS(m) or 4 in REPROPS(m)"),
+    })
+    c = Contract(
+        f"{DYN}:LFRicMeshProperties.kern_args",
+        params={"self": "LFRicMeshProperties", "stub": "bool",
+                "var_accesses": "VariablesAccessInfo",
+                "kern_call_arg_list": "KernCallArgList"},
+        requires=[("kernel", "self._kernel is not None and "
+                   "PROPS(self) is not None and REPROPS(self) is not None "
+                   "and self._symbol_table is not None")],
+        returns="list[str]",
+        ensures=[
+            ("nfaces_re_h_passed_only_if_rule_5_does_not_pass_it",
+             "len(result) == len(PROPS(self)) * ite(HORIZ(self), 1, 2)"),
+        ],
+        raises={"InternalError": None},
+        modifies=["$len", "$items.str", "$items.ref"],
+        covers=[("two", "len(PROPS(self)) >= 2"),
+                ("without", "len(PROPS(self)) >= 1 and not HORIZ(self)")])
+    uni.contracts["LFRicMeshProperties.kern_args:top"] = c
+    uni.loopspecs["LFRicMeshProperties.kern_args"] = {
+        0: LoopSpec(invariants=[
+            ("iter", "_iter is PROPS(self)"),
+            ("count", "arg_list is not None and fresh(arg_list) and "
+                      "len(arg_list) == _k * ite(HORIZ(self), 1, 2)"),
+            ("frame", "forall(lambda x: implies(x is not arg_list and "
+                      "not fresh(x), "
+                      "select_list(x) == entry(select_list(x))), "
+                      "'list[int]')")],
+            modifies=["$len", "$items.str", "$items.ref"]),
+    }
+    uni.local_types["LFRicMeshProperties.kern_args"] = {
+        "arg_list": "list[str]"}
+    uni.note_assumption(
+        "LFRicMeshProperties.kern_args: symbol creation and the PSyIR side "
+        "(append_*_reference, cell_ref_name) return opaque named symbols; "
+        "RefElementMetaData.Property members are the integers 1..6 in "
+        "declaration order; rule 5 (DynReferenceElement passes nfaces_re_h "
+        "exactly for the two horizontal-face properties) is taken from the "
+        "user guide, DynReferenceElement itself is not under contract")
+    return [c]
 
 
 TRUSTED = [
